@@ -15,7 +15,8 @@ if os.path.exists(src + "/notes.md"):
 meta = {"id": mid, "breaks_property": prop, "needs_to_manifest": note, "origin": "independent sub-agent given only the property text and a scratch worktree",
         "confirmed": {"compiles_and_repo_tests_pass": True, "demo_passes_on_repo": True, "demo_fails_on_mutant": True,
                       "how": "bash demo/run.sh /repo -> 0; bash demo/run.sh <worktree with patch> -> 1; selftest_mutant.sh <id> patch.diff <check>"},
-        "detected_by": detected}
+        "detected_by": detected,
+        "base_commit": subprocess.run(["git", "-C", "/repo", "rev-parse", "--short", "HEAD"], stdout=subprocess.PIPE).stdout.decode().strip() + " (HEAD of /repo when the change was written)"}
 json.dump(meta, open(dst + "/meta.json", "w"), indent=1)
 subprocess.run(["git", "-C", "/repo", "worktree", "remove", "--force", "/tmp/mut-%s" % mid])
 shutil.rmtree("/tmp/mut-%s-demo" % mid, ignore_errors=True)
